@@ -18,6 +18,7 @@ import io
 import json
 import multiprocessing
 import os
+import signal
 import struct
 import zlib
 
@@ -99,14 +100,38 @@ class Spy:
         self.dex.MapList = self.orig
 
 
-def real_dex(buf: bytes, spy=None):
-    """DEX(buf) -> (canonical, accepted?, parsed_after_header?, raised_in_header_stage?)"""
+class _Timeout(BaseException):
+    """a later stage of the real parser did not come back (not an Exception: androguard must not swallow it)"""
+
+
+def _on_alarm(signum, frame):
+    raise _Timeout()
+
+
+def real_dex(buf: bytes, spy=None, limit=5.0):
+    """DEX(buf) -> (canonical, accepted?, parsed_after_header?, raised_in_header_stage?).
+    A corrupted file that gets past the header may keep a later stage busy for ever (C35's subject, not
+    this property's): the call is abandoned after `limit` seconds and counts as 'header accepted'."""
     dex = _dex()
     n0 = spy.n if spy else 0
+    if limit:
+        signal.signal(signal.SIGVTALRM, _on_alarm)     # CPU time of this process: machine load does not count
+        signal.setitimer(signal.ITIMER_VIRTUAL, limit)
     try:
-        dex.DEX(buf)
-    except RecursionError:
-        return "ok", False, True, False          # a later stage blew up: the header had been accepted
+        try:
+            dex.DEX(buf)
+        finally:
+            if limit:
+                signal.setitimer(signal.ITIMER_VIRTUAL, 0)
+    except _Timeout:
+        # never a verdict by itself: ask HeaderItem alone (no later stage) whether the header is accepted
+        if real_header(buf).startswith("ok"):
+            return "ok", False, True, False      # header accepted, a later stage kept running
+        return real_dex(buf, spy, limit=None)    # the header rejects: run again without a limit
+    except (RecursionError, MemoryError) as e:
+        if real_header(buf).startswith("ok"):
+            return "ok", False, True, False      # a later stage blew up: the header had been accepted
+        return f"other:{type(e).__name__}", False, bool(spy and spy.n > n0), True
     except Exception as e:  # noqa
         parsed = bool(spy and spy.n > n0)
         stage, _ = in_header_stage(e)
@@ -320,94 +345,122 @@ def junk_cases(ck: Check):
 
 
 # ------------------------------------------------------------------ sweeps (single-byte changes)
-def _sweep_real(args):
-    """worker: every requested single-byte change of one file through DEX(...).
-    returns per case a small code: index into CODES, +100 when something after the header ran,
-    +200 when the exception did not come from the header stage"""
-    buf, start, stop, values = args
+def _values(mode, old):
+    if mode == "all":
+        return [v for v in range(256) if v != old]
+    if mode == "8":
+        return sorted({old ^ 1, old ^ 0x80, (old + 1) % 256, (old - 1) % 256, 0, 0xFF, old ^ 0x10, 255 - old} - {old})
+    return sorted({old ^ 1, old ^ 0xFF, (old + 1) % 256} - {old})
+
+
+def _sweep_file(args):
+    """worker (one file): the requested single-byte changes through the real DEX(...), the same through the
+    model's driver, the oracle's demand on each. Returns a summary (counts, first mismatches, first failures)."""
+    name, buf, offsets, mode, want_model, stream = args
     from harness.fw import quiet_androguard
     quiet_androguard()
-    res = []
+    real = []
+    bad = 0
     with Spy() as spy:
         b = bytearray(buf)
-        for off in range(start, stop):
+        for off in offsets:
             old = b[off]
-            for v in (values if values is not None else range(256)):
-                if v == old:
-                    continue
+            for v in _values(mode, old):
                 b[off] = v
-                c, accepted, parsed, stage = real_dex(bytes(b), spy)
-                res.append((off, v, c, accepted, parsed, stage))
+                c, accepted, parsed, stage = real_dex(bytes(b), spy, limit=2.0)
+                real.append((off, v, c, accepted, parsed))
+                bad += (off >= 8 and (c == "ok" or parsed))
             b[off] = old
-    return res
-
-
-def sweep(ck: Check, drv, pool, name, buf: bytes, offsets, values, stream):
-    """all (offset in offsets) x (values or all 255 others): real DEX(...) vs model `mut`, and the oracle"""
-    offsets = list(offsets)
-    if not offsets:
-        return 0
-    chunks = []
-    if offsets == list(range(offsets[0], offsets[-1] + 1)) and pool is not None and len(offsets) > 64:
-        step = max(16, len(offsets) // 32)
-        for s in range(offsets[0], offsets[-1] + 1, step):
-            chunks.append((buf, s, min(s + step, offsets[-1] + 1), values))
-        parts = pool.map(_sweep_real, chunks)
-    else:
-        parts = [_sweep_real((buf, o, o + 1, values)) for o in offsets]
-    real = [r for p in parts for r in p]
-    reqs = [f"mut {off} {v}" for off, v, *_ in real]
-    if drv is not None:
-        model = drv.ask([f"base {hexs(buf)}"] + reqs)[1:]
-        ck.compare(stream, [f"{name}: {r}" for r in reqs], [r[2] for r in real], model)
-    hist = {}
-    for off, v, c, accepted, parsed, stage in real:
+            if bad >= 300:               # the violation is established; do not parse 10^5 corrupted files in full
+                break
+    out = {"name": name, "stream": stream, "n": len(real), "hist": {}, "mismatch": [], "nmismatch": 0,
+           "fail": [], "nfail": 0, "nsearch": 0}
+    if want_model and real:
+        model = Driver("drv_C09").ask([f"base {hexs(buf)}"] + [f"mut {off} {v}" for off, v, *_ in real])[1:]
+        for (off, v, c, *_), m in zip(real, model):
+            if c != m:
+                out["nmismatch"] += 1
+                if len(out["mismatch"]) < 5:
+                    out["mismatch"].append((f"{name}: mut {off} {v}", c, m))
+    hist = out["hist"]
+    small = {"hex": hexs(buf)} if len(buf) <= 4096 else {}
+    for off, v, c, accepted, parsed in real:
         hist[c] = hist.get(c, 0) + 1
-        if off >= 8:
-            case = {"kind": "mut", "file": name, "off": off, "val": v,
-                    **({"hex": hexs(buf)} if len(buf) <= 4096 else {})}
-            if c == "ok":
-                ck.fail(case, "a single-byte change after the magic of an accepted DEX file is not rejected at the header"
-                        + (" (DEX(...) returned normally)" if accepted else " (a later stage raised instead)"),
-                        None, "rejected by HeaderItem", "accepted" if accepted else "header accepted, later error")
-            elif parsed:
-                ck.fail(case, "structures were parsed before the corrupted file was rejected", None,
-                        "no MapList before the header error", c)
-    ck.cover(evaluations=len(real), distinct=((name, off, v) for off, v, *_ in real if off >= 8),
-             dist={f"mut:{k}": n for k, n in hist.items()})
-    return len(real)
+        if off < 8:
+            continue                     # the magic: 'x'->'y' and the version digits are accepted; correspondence only
+        out["nsearch"] += 1
+        what = None
+        if c == "ok":
+            what = ("a single-byte change after the magic of an accepted DEX file is not rejected at the header"
+                    + (" (DEX(...) returned normally)" if accepted else " (a later stage raised instead)"),
+                    "rejected by HeaderItem", "accepted" if accepted else "header accepted, later error")
+        elif parsed:
+            what = ("structures were parsed before the corrupted file was rejected",
+                    "no MapList before the header error", c)
+        if what:
+            out["nfail"] += 1
+            if len(out["fail"]) < 3:
+                out["fail"].append(({"kind": "mut", "file": name, "off": off, "val": v, **small}, *what))
+    return out
+
+
+def run_sweeps(ck: Check, pool, tasks):
+    """tasks: list of _sweep_file argument tuples; biggest first so that the pool is balanced"""
+    tasks = sorted(tasks, key=lambda t: -len(t[1]) * len(t[2]) * (255 if t[3] == "all" else 8))
+    for r in pool.imap_unordered(_sweep_file, tasks):
+        st = r["stream"]
+        for rq, a, b in r["mismatch"]:
+            ck.compare(st, [rq], [a], [b])
+        extra = r["n"] - len(r["mismatch"])
+        ck.corr_cases += extra
+        ck.corr_streams[st] = ck.corr_streams.get(st, 0) + extra
+        for case, what, exp, obs in r["fail"]:
+            ck.fail(case, what, None, exp, obs)
+        for _ in range(r["nfail"] - len(r["fail"])):      # counted, not listed
+            ck.failures.append({"case": {"kind": "mut", "file": r["name"], "more": True}, "what": "more of the same",
+                                "key": None, "expected": None, "observed": None})
+        ck.cover(evaluations=r["n"], distinct=((r["name"], st, i) for i in range(r["nsearch"])),
+                 dist={f"{st}:{k}": n for k, n in r["hist"].items()})
 
 
 # ------------------------------------------------------------------ whole-buffer cases
-def whole(ck: Check, drv, cases, stream_prefix=""):
-    """cases: list of (label, bytes). HeaderItem and DEX(...) vs model; oracle on DEX(...)"""
-    reqs, rh, rd = [], [], []
+def whole(ck: Check, drv, cases, chunk=4000):
+    """cases: list of (label, bytes). HeaderItem and DEX(...) vs model; oracle on DEX(...). Returns the observations."""
     obs = []
-    with Spy() as spy:
-        for lab, b in cases:
-            reqs.append(f"hdr {hexs(b)}")
-            rh.append(real_header(b))
-            obs.append(real_dex(b, spy))
-    if drv is not None:
-        model = drv.ask(reqs)
-        ck.compare("hdr", [c[0] + " " + r[:300] for c, r in zip(cases, reqs)], rh, [canon_model_hdr(m) for m in model])
-        ck.compare("dex-api", [c[0] + " " + r[:300] for c, r in zip(cases, reqs)],
-                   [o[0] for o in obs], [m.split(" ")[0] if m.startswith("ok") else m for m in model])
     hist = {}
-    for (lab, b), (c, accepted, parsed, stage) in zip(cases, obs):
-        d = defects(b)
-        key = "+".join(d) if d else "none"
-        hist[key] = hist.get(key, 0) + 1
-        case = {"kind": "buf", "label": lab, **({"hex": hexs(b)} if len(b) <= 8192 else {"sha": hashlib.sha256(b).hexdigest()})}
-        if d:
+    for k in range(0, len(cases), chunk):
+        part = cases[k:k + chunk]
+        reqs, rh, po = [], [], []
+        with Spy() as spy:
+            for lab, b in part:
+                reqs.append(f"hdr {hexs(b)}")
+                rh.append(real_header(b))
+                po.append(real_dex(b, spy))
+        if drv is not None:
+            model = drv.ask(reqs)
+            labs = [c[0] + " " + r[:300] for c, r in zip(part, reqs)]
+            ck.compare("hdr", labs, rh, [canon_model_hdr(m) for m in model])
+            ck.compare("dex-api", labs, [o[0] for o in po], [m.split(" ")[0] if m.startswith("ok") else m for m in model])
+        nontrivial = []
+        for (lab, b), (c, accepted, parsed, stage) in zip(part, po):
+            d = defects(b)
+            key = "+".join(d) if d else "none"
+            hist[key] = hist.get(key, 0) + 1
+            if not d:
+                continue                  # the oracle has no objection: the statement demands nothing
+            if len(b) >= 0x70:
+                nontrivial.append(hashlib.sha256(b).digest()[:10])
+            case = {"kind": "buf", "label": lab,
+                    **({"hex": hexs(b)} if len(b) <= 8192 else {"sha": hashlib.sha256(b).hexdigest()})}
             if c == "ok":
                 ck.fail(case, f"a buffer with a wrong {' and '.join(d)} is not rejected at the header", None,
                         "an error raised by HeaderItem.__init__", "accepted" if accepted else "header accepted, later error")
             elif parsed:
                 ck.fail(case, f"structures were parsed before the buffer with a wrong {' and '.join(d)} was rejected",
                         None, "no MapList before the header error", c)
-    ck.cover(evaluations=len(cases), distinct=(hashlib.sha256(b).digest()[:10] for lab, b in cases if defects(b) and len(b) >= 0x70),
-             dist={f"defect:{k}": n for k, n in hist.items()})
+        ck.cover(evaluations=len(part), distinct=nontrivial)
+        obs += po
+    ck.cover(dist={f"defect:{k}": n for k, n in hist.items()})
     return obs
 
 
@@ -451,7 +504,8 @@ def run(ck: Check):
             raise
         drv = None                      # the model no longer builds: P is broken, T cannot run, S runs deeper
         ck.notes.append("driver not built: correspondence skipped")
-    deep = (not ck.quick) or bool(ck.p_errors)
+    deep = not ck.quick
+    boost = ck.quick and bool(ck.p_errors)      # a broken obligation: search deeper, still inside the quick budget
     ck.rule = ("evaluation = one buffer given to DEX(...) (and HeaderItem). mut: every offset >= 8 x all 255 other byte values "
                "of generated small DEX files and Test.dex, 8 values per offset for the other small shipped files, sampled "
                "offsets of the two large shipped files; buf: wrong/boundary magic, endian tag, header size, checksum, "
@@ -469,7 +523,7 @@ def run(ck: Check):
         ship = shipped_files()
         small = [(n, b) for n, b in ship if len(b) <= 4096]
         big = [(n, b) for n, b in ship if len(b) > 4096]
-        gens = generated_files(ck, 3 if not deep else 40) + [("basic112", BASIC)]
+        gens = generated_files(ck, 40 if deep else 5 if boost else 3) + [("basic112", BASIC)]
         bases = gens + small
         # every base file must be a file the oracle has no objection to, and is accepted (else the sweeps are vacuous)
         with Spy() as spy:
@@ -483,48 +537,35 @@ def run(ck: Check):
                 if not accepted:
                     ck.notes.append(f"base file {n}: DEX(...) did not return normally ({c})")
         ck.cover(dist={"base_files": len(bases) + len(big), "base_sizes": sorted(len(b) for _, b in bases + big)})
-        # 1. exhaustive single-byte changes
-        total = 0
+        # 1. single-byte changes: every offset >= 8 x all 255 other values for the generated files and Test.dex
+        #    (all small shipped files when deep/boosted), 8 values per offset for the rest, the 8 magic bytes of every
+        #    base file (correspondence only), sampled offsets of the large shipped files
+        wm = drv is not None
+        tasks = []
         for n, b in gens:
-            total += sweep(ck, drv, pool, n, b, range(8, len(b)), None, "mut")
+            tasks.append((n, b, list(range(8, len(b))), "all", wm, "mut"))
         for n, b in small:
-            if n == "Test.dex" or deep:
-                total += sweep(ck, drv, pool, n, b, range(8, len(b)), None, "mut")
-            else:
-                vals_of = lambda old: sorted({old ^ 1, old ^ 0x80, (old + 1) % 256, (old - 1) % 256, 0, 0xFF, old ^ 0x10, 255 - old})  # noqa
-                # 8 values per offset depend on the old byte: do it offset by offset in-process
-                real = []
-                with Spy() as spy:
-                    for off in range(8, len(b)):
-                        real += _sweep_real((b, off, off + 1, vals_of(b[off])))
-                _account(ck, drv, n, b, real)
-                total += len(real)
-        # offsets 0..7 (the magic) of every base: correspondence only (x->y and the version digits are accepted)
+            tasks.append((n, b, list(range(8, len(b))), "all" if (n == "Test.dex" or deep or (boost and len(b) < 1000)) else "8", wm, "mut"))
         for n, b in bases:
-            sweep(ck, drv, None, n, b, range(0, 8), None, "mut-magic")
-        # the large shipped files: sampled offsets (header, tables, tail) x a few values
+            tasks.append((n, b, list(range(0, 8)), "all", wm, "mut-magic"))
         for n, b in big:
             if ck.quick and len(b) > 1_000_000:
                 continue
             offs = sorted({8, 9, 11, 12, 31, 32, 36, 40, 43, 52, 64, 72, 111, 112, len(b) - 1, len(b) // 2}
                           | {ck.rng.randrange(12, len(b)) for _ in range(24 if ck.quick else 150)})
-            real = []
-            with Spy() as spy:
-                for off in offs:
-                    real += _sweep_real((b, off, off + 1, sorted({b[off] ^ 1, b[off] ^ 0xFF, (b[off] + 1) % 256})))
-            _account(ck, drv, n, b, real)
+            tasks.append((n, b, offs, "3", wm, "mut"))
+        run_sweeps(ck, pool, tasks)
         # 2. wrong fields, junk
         cases = []
         for n, b in [("basic112", BASIC)] + gens[:2] + [s for s in small if s[0] in ("Test.dex", "StringTests.dex")] + \
-                (gens[2:] + small if deep else []):
+                (gens[2:10] + small if (deep or boost) else []):
             cases += field_cases(ck, n, b)
         cases += junk_cases(ck)
         obs = whole(ck, drv, cases)
         later = sum(1 for (lab, b), o in zip(cases, obs) if o[0] == "ok" and not o[1])
         ck.cover(dist={"header_accepted_later_stage_raised": later,
                        "header_accepted_and_parsed": sum(1 for o in obs if o[1])},
-                 samples=[{"case": cases[i][0], "len": len(cases[i][1]), "DEX": obs[i][0], "oracle": defects(cases[i][1])}
-                          for i in range(0, len(cases), max(1, len(cases) // 8))][:8])
+                 samples=_samples(cases, obs))
     finally:
         pool.close(); pool.join()
     ck.assumptions += [
@@ -537,24 +578,19 @@ def run(ck: Check):
                     "any three version bytes (warning), file_size different from the buffer (warning), SHA-1 signature not verified")
 
 
-def _account(ck, drv, name, buf, real):
-    """model comparison + oracle for an explicit list of single-byte changes"""
-    reqs = [f"mut {off} {v}" for off, v, *_ in real]
-    if drv is not None and reqs:
-        model = drv.ask([f"base {hexs(buf)}"] + reqs)[1:]
-        ck.compare("mut", [f"{name}: {r}" for r in reqs], [r[2] for r in real], model)
-    hist = {}
-    for off, v, c, accepted, parsed, stage in real:
-        hist[c] = hist.get(c, 0) + 1
-        case = {"kind": "mut", "file": name, "off": off, "val": v, **({"hex": hexs(buf)} if len(buf) <= 4096 else {})}
-        if off >= 8 and c == "ok":
-            ck.fail(case, "a single-byte change after the magic of an accepted DEX file is not rejected at the header",
-                    None, "rejected by HeaderItem", "accepted" if accepted else "header accepted, later error")
-        elif off >= 8 and parsed:
-            ck.fail(case, "structures were parsed before the corrupted file was rejected", None,
-                    "no MapList before the header error", c)
-    ck.cover(evaluations=len(real), distinct=((name, off, v) for off, v, *_ in real if off >= 8),
-             dist={f"mut:{k}": n for k, n in hist.items()})
+def _samples(cases, obs):
+    """one sample per kind of oracle objection (and one accepted buffer)"""
+    seen, out = set(), []
+    for (lab, b), o in zip(cases, obs):
+        d = defects(b) if len(b) <= 2048 else None
+        if d is None:
+            continue
+        key = "+".join(d) or "none"
+        if key not in seen and len(out) < 10:
+            seen.add(key)
+            out.append({"case": lab, "len": len(b), "head": hexs(b[:44]), "oracle_wrong": d, "DEX": o[0],
+                        "returned_normally": o[1], "parsed_after_header": o[2]})
+    return out
 
 
 # ------------------------------------------------------------------ replay
